@@ -46,6 +46,8 @@ pub struct Space {
     pub col: u64,
     pub after_first_print: bool,
     pub top_stmt: usize,
+    // not inside (), [] or an object literal/pattern: a `,` here can never be legal
+    pub stmt_level: bool,
 }
 
 pub struct Printer<'a> {
@@ -71,6 +73,10 @@ pub struct Printer<'a> {
     cur_top: usize,
     in_slot: bool,
     no_flip: BTreeSet<NodeId>,
+    pending_op: Option<NodeId>,
+    // open brackets: true = item context ((), [], object braces), false = block braces
+    brackets: Vec<bool>,
+    next_brace_is_object: bool,
 }
 
 const COMMENTS: &[&str] = &["# note", "# ünï ✓ cömment", "#", "# print(\"not code\") @ ~", "#\ttabbed # twice"];
@@ -100,6 +106,9 @@ impl<'a> Printer<'a> {
             cur_top: 0,
             in_slot: false,
             no_flip: BTreeSet::new(),
+            pending_op: None,
+            brackets: vec![],
+            next_brace_is_object: false,
         }
     }
 
@@ -183,7 +192,8 @@ impl<'a> Printer<'a> {
 
     fn space(&mut self) {
         if !self.in_slot {
-            self.spaces.push(Space { off: self.out.len() as u64, line: self.line, col: self.col + 1, after_first_print: false, top_stmt: self.cur_top });
+            let stmt_level = !self.brackets.iter().any(|b| *b);
+            self.spaces.push(Space { off: self.out.len() as u64, line: self.line, col: self.col + 1, after_first_print: false, top_stmt: self.cur_top, stmt_level });
         }
         self.raw(" ");
     }
@@ -264,6 +274,26 @@ impl<'a> Printer<'a> {
                     self.feats[n] = f.clone();
                 }
             }
+        }
+        if let Some(n) = self.pending_op.take() {
+            let mut f: Vec<String> = self.line_feats.iter().cloned().collect();
+            f.extend(self.global_feats.iter().cloned());
+            self.pos[n] = Some((self.line, self.col + 1));
+            if !self.in_slot {
+                self.tok_off[n] = Some(self.out.len() as u64);
+            }
+            self.feats[n] = f;
+        }
+        match text {
+            "(" | "[" => self.brackets.push(true),
+            "{" => {
+                let obj = std::mem::take(&mut self.next_brace_is_object);
+                self.brackets.push(obj);
+            }
+            ")" | "]" | "}" => {
+                self.brackets.pop();
+            }
+            _ => {}
         }
         let had_nl = text.contains('\n');
         self.raw(text);
@@ -383,6 +413,7 @@ impl<'a> Printer<'a> {
                 self.sym("]", false, 0);
             }
             Val::Obj(props) => {
+                self.next_brace_is_object = true;
                 self.sym("{", true, 1);
                 for (i, (k, it)) in props.iter().enumerate() {
                     if i > 0 {
@@ -404,7 +435,7 @@ impl<'a> Printer<'a> {
     // tiers of seed's grammar: 5 postfix/primary, 4 `* / % == < ...`, 3 `+ -`, 2 `&& ||`, 1 `..`
     fn tier(e: &Expr) -> u8 {
         match e {
-            Expr::Bin(op, _, _) => match *op {
+            Expr::Bin(_, op, _, _) => match *op {
                 "*" | "/" | "%" | "==" | "!=" | "<" | "<=" | ">" | ">=" | "===" | "!==" => 4,
                 "+" | "-" => 3,
                 _ => 2,
@@ -545,10 +576,11 @@ impl<'a> Printer<'a> {
                 }
                 self.args(args);
             }
-            Expr::Bin(op, l, r) => {
+            Expr::Bin(node, op, l, r) => {
                 let t = Self::tier(e);
                 self.expr_at(l, t);
                 let cont = *op != "===" && *op != "!==";
+                self.pending_op = Some(*node);
                 self.sym(op, cont, 1);
                 self.expr_at(r, t + 1);
             }
@@ -563,6 +595,7 @@ impl<'a> Printer<'a> {
                 self.sym("]", false, 0);
             }
             Expr::Obj(items) => {
+                self.next_brace_is_object = true;
                 self.sym("{", true, 1);
                 for (i, it) in items.iter().enumerate() {
                     if i > 0 {
@@ -685,6 +718,7 @@ impl<'a> Printer<'a> {
                 self.sym("]", false, 0);
             }
             Pat::Obj(ps, rest) => {
+                self.next_brace_is_object = true;
                 self.sym("{", true, 1);
                 let mut first = true;
                 for (k, _, q) in ps {
@@ -899,6 +933,9 @@ impl<'a> Printer<'a> {
                     self.word("null");
                     return;
                 }
+                // a bare block and an object literal statement share their first tokens
+                // (`{ a, ...`): a stray `,` directly inside may be legal, so not "statement level"
+                self.next_brace_is_object = true;
                 self.tok("{", false, true, 0);
                 self.indent += 1;
                 self.open_line();
